@@ -15,10 +15,13 @@ import (
 	"time"
 
 	v1 "k8s.io/api/core/v1"
+	resourceapi "k8s.io/api/resource/v1"
 	metav1 "k8s.io/apimachinery/pkg/apis/meta/v1"
 	"k8s.io/apimachinery/pkg/runtime"
 	"k8s.io/apimachinery/pkg/runtime/schema"
 	"k8s.io/apimachinery/pkg/types"
+	"k8s.io/apimachinery/pkg/version"
+	fakediscovery "k8s.io/client-go/discovery/fake"
 	"k8s.io/client-go/kubernetes/fake"
 	k8stesting "k8s.io/client-go/testing"
 
@@ -124,12 +127,39 @@ func (s *Store) Refresh() {
 	for _, br := range s.BindRequests() {
 		o.BindRequests = append(o.BindRequests, br.DeepCopy())
 	}
+	if l, err := s.Kube.ResourceV1().DeviceClasses().List(ctx, metav1.ListOptions{}); err == nil {
+		for i := range l.Items {
+			o.DeviceClasses = append(o.DeviceClasses, l.Items[i].DeepCopy())
+		}
+	}
+	if l, err := s.Kube.ResourceV1().ResourceSlices().List(ctx, metav1.ListOptions{}); err == nil {
+		for i := range l.Items {
+			o.ResourceSlices = append(o.ResourceSlices, l.Items[i].DeepCopy())
+		}
+	}
+	for _, rc := range s.Claims() {
+		o.ResourceClaims = append(o.ResourceClaims, rc.DeepCopy())
+	}
 	if l, err := s.Kai.KaiV1alpha1().Topologies().List(ctx, metav1.ListOptions{}); err == nil {
 		for i := range l.Items {
 			o.Topologies = append(o.Topologies, l.Items[i].DeepCopy())
 		}
 	}
 	s.install(o)
+}
+
+// Claims lists the ResourceClaims of the store, by name.
+func (s *Store) Claims() []*resourceapi.ResourceClaim {
+	l, err := s.Kube.ResourceV1().ResourceClaims("").List(context.Background(), metav1.ListOptions{})
+	if err != nil {
+		return nil
+	}
+	out := make([]*resourceapi.ResourceClaim, 0, len(l.Items))
+	for i := range l.Items {
+		out = append(out, &l.Items[i])
+	}
+	sort.Slice(out, func(i, j int) bool { return out[i].Name < out[j].Name })
+	return out
 }
 
 func (s *Store) install(o *Objects) {
@@ -142,6 +172,15 @@ func (s *Store) install(o *Objects) {
 	}
 	for _, pc := range o.PriorityClasses {
 		kobjs = append(kobjs, pc)
+	}
+	for _, x := range o.DeviceClasses {
+		kobjs = append(kobjs, x)
+	}
+	for _, x := range o.ResourceSlices {
+		kobjs = append(kobjs, x)
+	}
+	for _, x := range o.ResourceClaims {
+		kobjs = append(kobjs, x)
 	}
 	var kaiobjs []runtime.Object
 	for _, q := range o.Queues {
@@ -158,6 +197,14 @@ func (s *Store) install(o *Objects) {
 	}
 	s.Kube = fake.NewSimpleClientset(kobjs...)
 	s.Kai = kaifake.NewSimpleClientset(kaiobjs...)
+	if fd, ok := s.Kube.Discovery().(*fakediscovery.FakeDiscovery); ok {
+		// the scheduler switches dynamic resource allocation on when the API server serves resource.k8s.io
+		fd.FakedServerVersion = &version.Info{Major: "1", Minor: "33"}
+		if len(o.DeviceClasses)+len(o.ResourceSlices)+len(o.ResourceClaims) > 0 {
+			fd.Resources = append(fd.Resources, &metav1.APIResourceList{GroupVersion: "resource.k8s.io/v1", APIResources: []metav1.APIResource{
+				{Name: "resourceclaims", Namespaced: true, Kind: "ResourceClaim"}, {Name: "resourceslices", Kind: "ResourceSlice"}, {Name: "deviceclasses", Kind: "DeviceClass"}}})
+		}
+	}
 	// API-server semantics of pod deletion: a pod that runs on a node is only marked (graceful
 	// deletion), a pod that never reached a node disappears at once.
 	s.Kube.PrependReactor("delete", "pods", func(action k8stesting.Action) (bool, runtime.Object, error) {
@@ -280,6 +327,23 @@ type Call struct {
 	GangSize  int      `json:"gangSize,omitempty"`
 	Err       string   `json:"err,omitempty"`
 	Injected  bool     `json:"injected,omitempty"`
+	Claims    []string `json:"claims,omitempty"` // DRA devices handed to the pod: claim=driver/pool/device
+}
+
+// claimDevices renders the devices of a task's resource claim allocations, sorted.
+func claimDevices(p *pod_info.PodInfo) []string {
+	var out []string
+	for name, ca := range p.ResourceClaimInfo {
+		if ca == nil || ca.Allocation == nil {
+			out = append(out, name+"=<unallocated>")
+			continue
+		}
+		for _, r := range ca.Allocation.Devices.Results {
+			out = append(out, fmt.Sprintf("%s=%s/%s/%s", name, r.Driver, r.Pool, r.Device))
+		}
+	}
+	sort.Strings(out)
+	return out
 }
 
 func (c Call) String() string {
@@ -308,7 +372,7 @@ type recordingCache struct {
 }
 
 func (r *recordingCache) Bind(p *pod_info.PodInfo, hostname string, ann map[string]string) error {
-	c := Call{Kind: "bind", Pod: p.Name, Node: hostname, Groups: append([]string(nil), p.GPUGroups...), Received: string(p.ResourceReceivedType)}
+	c := Call{Kind: "bind", Pod: p.Name, Node: hostname, Groups: append([]string(nil), p.GPUGroups...), Received: string(p.ResourceReceivedType), Claims: claimDevices(p)}
 	err := r.Cache.Bind(p, hostname, ann)
 	if err != nil {
 		c.Err = err.Error()
@@ -346,7 +410,7 @@ func (r *recordingCache) Evict(pod *v1.Pod, job *podgroup_info.PodGroupInfo, md 
 
 func (r *recordingCache) TaskPipelined(p *pod_info.PodInfo, msg string) {
 	r.mu.Lock()
-	r.calls = append(r.calls, Call{Kind: "pipeline", Pod: p.Name, Node: p.NodeName, Groups: append([]string(nil), p.GPUGroups...)})
+	r.calls = append(r.calls, Call{Kind: "pipeline", Pod: p.Name, Node: p.NodeName, Groups: append([]string(nil), p.GPUGroups...), Claims: claimDevices(p)})
 	r.mu.Unlock()
 	r.Cache.TaskPipelined(p, msg)
 }
@@ -677,6 +741,28 @@ func EnvStep(s *Store, sc *CycleScript, cycle int, rec *CycleRecord) {
 				}
 			}
 			_ = s.Kube.Tracker().Update(podGVR, pod, pod.Namespace)
+			for _, ca := range br.Spec.ResourceClaimAllocations {
+				// the binder's DRA plugin: reserve the claim for the pod, allocate it if nobody has
+				for _, pc := range pod.Spec.ResourceClaims {
+					if pc.Name != ca.Name || pc.ResourceClaimName == nil {
+						continue
+					}
+					if rc, err := s.Kube.ResourceV1().ResourceClaims(pod.Namespace).Get(ctx, *pc.ResourceClaimName, metav1.GetOptions{}); err == nil {
+						rc = rc.DeepCopy()
+						if rc.Status.Allocation == nil {
+							rc.Status.Allocation = ca.Allocation.DeepCopy()
+						}
+						have := false
+						for _, r := range rc.Status.ReservedFor {
+							have = have || r.UID == pod.UID
+						}
+						if !have {
+							rc.Status.ReservedFor = append(rc.Status.ReservedFor, resourceapi.ResourceClaimConsumerReference{Resource: "pods", Name: pod.Name, UID: pod.UID})
+						}
+						_, _ = s.Kube.ResourceV1().ResourceClaims(pod.Namespace).UpdateStatus(ctx, rc, metav1.UpdateOptions{})
+					}
+				}
+			}
 			if sc.KeepRequests {
 				b2 := br.DeepCopy()
 				b2.Status.Phase = schedulingv1alpha2.BindRequestPhaseSucceeded
@@ -691,6 +777,39 @@ func EnvStep(s *Store, sc *CycleScript, cycle int, rec *CycleRecord) {
 			b2.Status.FailedAttempts++
 			b2.Status.Reason = "injected bind failure"
 			_, _ = s.Kai.SchedulingV1alpha2().BindRequests(br.Namespace).Update(ctx, b2, metav1.UpdateOptions{})
+		}
+	}
+	// resource claim controller: consumers that are gone leave the claim; a claim without consumers is deallocated;
+	// claims owned by a pod that is gone are garbage collected
+	livePods := map[types.UID]bool{}
+	for _, p := range s.Pods() {
+		livePods[p.UID] = true
+	}
+	for _, rc := range s.Claims() {
+		owned, ownerLive := false, false
+		for _, or := range rc.OwnerReferences {
+			if or.Kind == "Pod" {
+				owned = true
+				ownerLive = ownerLive || livePods[or.UID]
+			}
+		}
+		if owned && !ownerLive {
+			_ = s.Kube.ResourceV1().ResourceClaims(rc.Namespace).Delete(ctx, rc.Name, metav1.DeleteOptions{})
+			continue
+		}
+		upd := rc.DeepCopy()
+		var keep []resourceapi.ResourceClaimConsumerReference
+		for _, r := range upd.Status.ReservedFor {
+			if livePods[r.UID] {
+				keep = append(keep, r)
+			}
+		}
+		if len(keep) != len(upd.Status.ReservedFor) {
+			upd.Status.ReservedFor = keep
+			if len(keep) == 0 {
+				upd.Status.Allocation = nil
+			}
+			_, _ = s.Kube.ResourceV1().ResourceClaims(rc.Namespace).UpdateStatus(ctx, upd, metav1.UpdateOptions{})
 		}
 	}
 	// reservation pods without consumers are removed by the binder's sync
